@@ -9,8 +9,10 @@ in Python is a *proven* deadlock on a GIL build and is reported deterministicall
 from __future__ import annotations
 
 import collections
+from collections import OrderedDict, defaultdict
 import gc
 import hashlib
+import pickle
 import os
 import sys
 import threading
@@ -50,13 +52,13 @@ REAL_VS_STUB = {
                                 'warnings.showwarning', 'all user callbacks', 'GC timing'],
 }
 EXPECTED_PROBES = ('cb:is_leaf', 'cb:flatten_func', 'cb:unflatten_func', 'cb:map_fn', 'cb:key.__hash__', 'cb:key.__lt__',
-                   'cb:meta.__ne__', 'cb:meta.__repr__', 'cb:showwarning', 'cb:meta.__getattr__', 't8:registration-failed-in-hook', 't9:completed', 't9:refused', 't3:pairing-op',
+                   'cb:meta.__ne__', 'cb:meta.__repr__', 'cb:showwarning', 'cb:meta.__getattr__', 't8:registration-failed-in-hook', 't9:completed', 't9:refused', 't10:observations', 't3:pairing-op',
                    'lock:registry:acquire', 'lock:registry:contended', 'switch-inside-callback')
 # 'callback-entered-with-engine-lock-held' is reported as a counter; on a correct tree it stays 0 (it was 30 569 per
 # quick run before fix 414fcff)
 
 V = _C._verif if hasattr(_C, '_verif') else None
-TEMPLATES = ('T1', 'T2', 'T3', 'T4', 'T5', 'T6', 'T7', 'T8', 'T9')
+TEMPLATES = ('T1', 'T2', 'T3', 'T4', 'T5', 'T6', 'T7', 'T8', 'T9', 'T10')
 PKG_PREFIX = os.path.dirname(optree.__file__) + os.sep
 REGMOD = optree.registry
 
@@ -199,7 +201,7 @@ def run_job(job, io):
     REGMOD.__dict__['__REGISTRY_LOCK'] = old_lock
 
     for lab, n in sim.probes.items():
-        if lab.startswith(('cb:', 'lock:', 't3:', 't8:', 't9:')) or lab in ('callback-entered-with-engine-lock-held',):
+        if lab.startswith(('cb:', 'lock:', 't3:', 't8:', 't9:', 't10:')) or lab in ('callback-entered-with-engine-lock-held',):
             probes[lab] += n
     py_lines = sum(n for lab, n in sim.probes.items() if lab.startswith('py:'))
     probes['py-line-yield-points'] += py_lines
@@ -606,6 +608,75 @@ def tpl_T3(sim, tape, viol, keys, desc, cb, job):
         if current['f'] is not None:
             optree.unregister_pytree_node(cls, namespace=ns)
         others.unregister_all()
+    return {'cleanup': cleanup}
+
+
+# -------------------------------------------------------------------------------------------------- T10
+def tpl_T10(sim, tape, viol, keys, desc, cb, job):
+    """One task runs operations that FAIL with a shared treespec as their other operand (key-set / kind / arity mismatches in
+    broadcast_to_common_suffix, flatten_up_to, is_prefix, compose-then-compare ...); the other observes that shared treespec.
+    A failing operation reads its operands; whatever it does to build its error message, nobody else may see the operand
+    changed, not even for the duration of a key comparison.  Keys have Python-level dunders (switch points inside sorts)."""
+    mk = (dict, OrderedDict, lambda it: defaultdict(int, it))[tape.draw(3, 't10-kind')]
+    k1, k2, k3 = U.Key(1), U.Key(2), U.Key(3)
+    shared_tree = mk([(k2, U.Leaf(1)), (k1, (U.Leaf(2), U.Leaf(3)))])
+    if tape.draw(2, 't10-nest'):
+        shared_tree = [shared_tree, {'z': mk([(k3, U.Leaf(4)), (k1, U.Leaf(5))])}]
+    S = optree.tree_structure(shared_tree)
+    other_tree = mk([(k3, U.Leaf(6)), (k1, (U.Leaf(7), U.Leaf(8)))])  # another key set
+    if isinstance(shared_tree, list):
+        other_tree = [other_tree, {'z': mk([(k2, U.Leaf(9)), (k1, U.Leaf(10))])}]
+    T = optree.tree_structure(other_tree)
+
+    def observe_s():
+        out = []
+        for f in (lambda: repr(S), lambda: hash(S), lambda: S.entries(), lambda: S.paths(), lambda: [repr(c) for c in S.children()],
+                  lambda: gen.describe(S.unflatten(list(range(S.num_leaves)))), lambda: S == optree.tree_structure(shared_tree),
+                  lambda: repr(pickle.loads(pickle.dumps(S))), lambda: S.flatten_up_to(shared_tree) is not None):
+            try:
+                out.append(f())
+            except BaseException as e:  # noqa: BLE001
+                out.append('raised %s: %s' % (type(e).__name__, str(e)[:80]))
+        return out
+
+    U.HOOK = None
+    solo = observe_s()
+    failing = [lambda: T.broadcast_to_common_suffix(S), lambda: S.broadcast_to_common_suffix(T), lambda: T.flatten_up_to(shared_tree),
+               lambda: optree.tree_broadcast_common(other_tree, shared_tree), lambda: optree.tree_map(lambda a, b: a, other_tree, shared_tree),
+               lambda: optree.prefix_errors(other_tree, shared_tree) and None, lambda: T.is_prefix(S), lambda: T.compose(S) == S]
+    which = [tape.draw(len(failing), 't10-op') for _ in range(1 + tape.draw(2, 't10-nops'))]
+    seen = []
+
+    def failer(task):
+        for w in which:
+            try:
+                failing[w]()
+            except (ValueError, TypeError, RuntimeError):
+                pass
+
+    def observer(task):
+        for _ in range(2):
+            seen.append(observe_s())
+            sim.point('t10:between')
+
+    set_policy(sim, tape, job)
+    sim.spawn('failer', failer)
+    sim.spawn('observer', observer)
+    desc.update({'tree': gen.describe(shared_tree)[:160], 'ops': which})
+    U.HOOK = cb
+    sim.run()
+    U.HOOK = None
+    if sim.deadlock is None and not sim.engine_blocks:
+        sim.probes['t10:observations'] += len(seen)
+        for got in seen + [observe_s()]:
+            if got != solo:
+                diff = [(a, b) for a, b in zip(solo, got) if a != b][:2]
+                viol('not-sequential', 'T10:shared-operand', 'a treespec that is only the OTHER operand of failing operations in another task looked different '
+                     'to a concurrent observer: %r' % (diff,))
+                break
+
+    def cleanup():
+        pass
     return {'cleanup': cleanup}
 
 
